@@ -94,13 +94,24 @@ def _check_graph(g, cells, pairs, paths, np_seed, sig="C13"):
     # batch edge test on every lattice edge, both orientations
     LE = M.lattice_edges(r, c)
     if LE:
-        edges = np.array([[u, v] for u, v in LE] + [[v, u] for u, v in LE])
-        want = [frozenset(e) in Eset for e in LE] * 2
-        # the library's own edge arrays (lattice_connection_array, what the tokenizers pass in) are int8; callers also pass int64
-        for dt in ((np.int64, np.int8) if max(r, c) <= 127 else (np.int64,)):
-            flags = np.asarray(call(f"{sig}:is_connection", is_connection, edges.astype(dt), M.g_cl(g)))
-            require(flags.shape == (len(want),) and [bool(x) for x in flags] == want, f"{sig}:is_connection",
-                    f"flags differ from model for {np.dtype(dt).name} edges (first at edge {next((edges[k].tolist() for k in range(len(want)) if k < len(flags) and bool(flags[k]) != want[k]), None)}); bits={g['cl']} {r}x{c}")
+        # batches: every edge in both orientations; the same edges with a minority / a majority written the other way round (a pure
+        # function of the edge index); the edges written from one cell to each of its lattice neighbours; single edges
+        batches = [[[u, v] for u, v in LE] + [[v, u] for u, v in LE],
+                   [[v, u] if (k * 7 + len(LE)) % 4 == 0 else [u, v] for k, (u, v) in enumerate(LE)],
+                   [[u, v] if (k * 5 + len(LE)) % 4 == 0 else [v, u] for k, (u, v) in enumerate(LE)]]
+        hub = sorted(a)[(len(LE) * 3) % len(a)]
+        star = [[hub, (hub[0] + di, hub[1] + dj)] for di, dj in ((-1, 0), (0, 1), (1, 0), (0, -1)) if 0 <= hub[0] + di < r and 0 <= hub[1] + dj < c]
+        batches += [star, star[::-1], [batches[1][0]], [batches[2][-1]]]
+        for bi, batch in enumerate(batches):
+            if not batch:
+                continue
+            edges = np.array(batch)
+            want = [frozenset((tuple(e[0]), tuple(e[1]))) in Eset for e in batch]
+            # the library's own edge arrays (lattice_connection_array, what the tokenizers pass in) are int8; callers also pass int64
+            for dt in ((np.int64, np.int8) if max(r, c) <= 127 else (np.int64,)):
+                flags = np.asarray(call(f"{sig}:is_connection", is_connection, edges.astype(dt), M.g_cl(g)))
+                require(flags.shape == (len(want),) and [bool(x) for x in flags] == want, f"{sig}:is_connection",
+                        f"batch {bi}: flags differ from model for {np.dtype(dt).name} edges (first at edge {next((edges[k].tolist() for k in range(len(want)) if k < len(flags) and bool(flags[k]) != want[k]), None)}); bits={g['cl']} {r}x{c}")
     # path validation
     for path, eiv in paths:
         arr = np.array(path, dtype=int).reshape(-1, 2)
